@@ -1,4 +1,4 @@
-import LokyModel.Lemmas.ExecTerm
+import LokyModel.Lemmas.ExecMsgU
 import LokyModel.Props.C02
 import LokyModel.Props.C01
 import LokyModel.Lemmas.ExecTokenU
@@ -149,5 +149,32 @@ theorem C03_value_from_one_execution (cfg : Cfg) (s : St) (h : Reachable cfg s) 
 theorem C03_queue_ids_are_tracked (cfg : Cfg) (s : St) (h : Reachable cfg s) (hl : mTerm s.mpc = false)
     (i : Wid) (hi : i ∈ s.workIds) : i ∈ s.pending ∧ (futOf s i = .pending ∨ futOf s i = .cancelled) :=
   (futInv_reachable h).wk hl i hi
+
+
+/-! ### routing (message invariant `MsgInv`) -/
+
+/-- **A worker runs the task of the work id it was given**: in every reachable state a worker about to run (or
+    running) a body holds a call item whose task is the one submitted under that work id. -/
+theorem C03_runs_own_task (cfg : Cfg) (s : St) (h : Reachable cfg s) (p : Pid) (w : Wid) (t : Tid)
+    (hp : s.w p = .task w t ∨ s.w p = .taskEnd w t) : w < s.taskOf.length ∧ t = s.taskOf.getD w 0 := by
+  have := (msgInv_reachable h).w p
+  rcases hp with e | e <;> (rw [e] at this; exact this)
+
+/-- Every call item, wherever it is (call buffer, feeder's hands, call pipe), carries the task of its own work
+    id; every result message (worker's hands, result pipe, manager's hands) carries the outcome kind of the task of
+    its own work id. -/
+theorem C03_messages_carry_own_task (cfg : Cfg) (s : St) (h : Reachable cfg s) :
+    (∀ m, m ∈ s.cqBuf ∨ m ∈ s.cqPipe → goodC s.cfg s.taskOf m) ∧ (∀ r, r ∈ s.rqPipe → goodR s.cfg s.taskOf r) := by
+  have inv := msgInv_reachable h
+  exact ⟨fun m hm => hm.elim (inv.buf m) (inv.pipe m), inv.rq⟩
+
+/-- **Right result to the right future.**  A future holds a value only if the task submitted under *its* work id
+    returns normally (and its result survives the trip back); it holds a task exception only if *its* task raises.
+    Together with `C03_value_from_one_execution`: the value is the outcome of exactly one execution of its own
+    submission. -/
+theorem C03_right_result (cfg : Cfg) (s : St) (h : Reachable cfg s) (i : Wid) :
+    (futOf s i = .value → (specOf s (s.taskOf.getD i 0)).body = .ok ∧ (specOf s (s.taskOf.getD i 0)).res ≠ .badunpickle) ∧
+    (futOf s i = .excWorker → (specOf s (s.taskOf.getD i 0)).body = .raises) :=
+  (msgInv_reachable h).val i
 
 end LokyModel.Exec
